@@ -51,7 +51,9 @@ def gen_case(rng):
     D = max(-1, min(1, D))
     w = rng.choice([0.0, 1.0, -1.0, 0.5, rng.uniform(-2.5, 2.5)]) * w0
     spd = scen.in_unit(rng, 'AngularSpeed', w)
-    return dict(motor=m, spd=spd, pwm=D)
+    # one case in three: the user re-expresses the motor's driving torque in another unit between the two calls
+    tq_unit = rng.choice(S.units('Torque')) if rng.random() < 0.33 else None
+    return dict(motor=m, spd=spd, pwm=D, tq_unit=tq_unit)
 
 
 def run_impl(c):
@@ -69,11 +71,14 @@ def run_impl(c):
         mot.angular_speed = scen.mkq(c['spd'])
         mot.pwm = c['pwm']
         mot.compute_torque()
+        T = scen.fu(mot.driving_torque)
+        if c.get('tq_unit'):
+            mot.driving_torque = mot.driving_torque.to(c['tq_unit'])
         cur = None
         if mot.electric_current_is_computable:
             mot.compute_electric_current()
             cur = scen.fu(mot.electric_current)
-        return dict(T=scen.fu(mot.driving_torque), I=cur, err=None)
+        return dict(T=T, I=cur, err=None)
     except Exception as e:  # noqa
         n = type(e).__name__
         return dict(err=n if n in scen.EXN else 'Other:' + n, errmsg=str(e)[:200])
@@ -86,7 +91,7 @@ def case_coq(c, r):
         exp = f'(MOk {scen.cfu(r["T"])} {scen.copt(r["I"], scen.cfu)})'
     else:
         exp = f'(MErr {r["err"] if not r["err"].startswith("Other") else "OracleMiss"})'
-    return f'{{| mc_motor := {motor}; mc_spd := {scen.cq(c["spd"])}; mc_pwm := {lib.flit(c["pwm"])}; mc_exp := {exp} |}}'
+    return f'{{| mc_motor := {motor}; mc_spd := {scen.cq(c["spd"])}; mc_pwm := {lib.flit(c["pwm"])}; mc_tq_unit := {"None" if not c.get("tq_unit") else "(Some " + lib.coq_str(c["tq_unit"]) + ")"}; mc_exp := {exp} |}}'
 
 
 def nontrivial(c):
